@@ -760,6 +760,13 @@ class SSHTransportBase(protocol.Protocol):
                         return
                     i = lines.index(p)
                     self.buf = b"\n".join(lines[i + 1 :])
+                    # Everything after the version line is binary packet
+                    # data, not more identification lines.
+                    break
+            else:
+                # Only lines preceding the version string were received so
+                # far (RFC 4253 section 4.2); wait for the version string.
+                return
         packet = self.getPacket()
         while packet:
             messageNum = ord(packet[0:1])
